@@ -175,6 +175,59 @@ def default_substitute_rule(res, fx):
         raise AnalysisBroken('DEFAULT-SUBSTITUTE: only %d Matches() implementations read a _default member' % n_ds)
 
 
+def paired_length_rule(res, fx, rule='PAIRED-LENGTH'):
+    """two (pointer, length) pairs are compared in RawDataQueryFilter::Matches: an offset into one buffer is computed from that buffer's own length"""
+    res.rule(rule, 'in the Matches() methods of regex/QueryFilter.cpp an expression `buf[len - …]` (or buf + len - …) indexes a byte pointer local with the length local that was obtained together with it '
+                   '(both out-arguments of one call, or GetBuffer()/GetNumBytes() of one object), never with the length of the other operand', floor=2)
+    n = 0
+    for f in sorted((f for f in fx.funcs.values() if f.full and f.q.endswith('::Matches') and f.file.endswith('regex/QueryFilter.cpp')), key=lambda f: f.line):
+        # origin of each local: ('call', node id of the call it is an out-argument of) / ('obj', render key of the object whose accessor initialised it)
+        origin = {}
+        for c in f.walk():
+            if c.is_call():
+                for a in c.args():
+                    a0 = A.strip_casts(a)
+                    if a0['k'] == 'UnaryOperator' and a0.get('op') == '&' and A.strip_casts(a0['ch'][0])['k'] == 'DeclRefExpr':
+                        origin.setdefault(A.strip_casts(a0['ch'][0]).get('d'), set()).add(('call', c['i']))
+        for v in f.walk():
+            if v['k'] == 'VarDecl' and v['ch']:
+                for x in v['ch'][0].walk():
+                    if x['k'] == 'CXXMemberCallExpr' and re.search(r'::(GetBuffer|GetNumBytes)$', x.get('q') or '') and x.receiver() is not None:
+                        origin.setdefault(v['d'], set()).add(('obj', A.render_key(A.strip_casts(x.receiver()))))
+        for v in f.walk():
+            if v['k'] == 'BinaryOperator' and v.get('op') == '=' and A.strip_casts(v['ch'][0])['k'] == 'DeclRefExpr':
+                for x in v['ch'][1].walk():
+                    if x['k'] == 'CXXMemberCallExpr' and re.search(r'::(GetBuffer|GetNumBytes)$', x.get('q') or '') and x.receiver() is not None:
+                        origin.setdefault(A.strip_casts(v['ch'][0]).get('d'), set()).add(('obj', A.render_key(A.strip_casts(x.receiver()))))
+        changed = True
+        while changed:                       # a local that is just another local (re-typed) has that local's origin
+            changed = False
+            for v in f.walk():
+                if v['k'] == 'VarDecl' and v['ch']:
+                    src = A.strip_casts(v['ch'][0])
+                    if src['k'] == 'DeclRefExpr' and src.get('d') in origin and not origin[src['d']] <= origin.get(v['d'], set()):
+                        origin.setdefault(v['d'], set()).update(origin[src['d']])
+                        changed = True
+        for sub in f.walk():
+            if sub['k'] != 'ArraySubscriptExpr':
+                continue
+            b = A.strip_casts(sub['ch'][0])
+            idx = A.strip_casts(sub['ch'][1])
+            if b['k'] != 'DeclRefExpr' or b.get('d') not in origin or idx['k'] != 'BinaryOperator' or idx.get('op') != '-':
+                continue
+            L = A.strip_casts(idx['ch'][0])
+            if L['k'] != 'DeclRefExpr' or L.get('d') not in origin:
+                continue
+            n += 1
+            ok = bool(origin[b['d']] & origin[L['d']])
+            res.ob(rule, f.where(sub), '%s line %s: `%s` is indexed from its own length `%s`' % (f.q.split('::')[-2], sub.get('l'), b.get('n'), L.get('n')), ok, function=f.q,
+                   key='%s|%s|%s[%s]' % (rule, f.q, b.get('n'), L.get('n')),
+                   message='%s computes an offset into `%s` from `%s`, the length of the OTHER buffer (`%s[%s]`): the comparison looks at the wrong bytes — OP_ENDS_WITH then tests the beginning '
+                           'of the field instead of its end, and a filter restored from its archive misdecides the same way' % (f.q, b.get('n'), L.get('n'), b.get('n'), idx.text(30)))
+    if n < 2:
+        raise AnalysisBroken('%s: only %d length-relative buffer offsets found in the Matches() methods' % (rule, n))
+
+
 def parsed_name_used_rule(res, fx, rule='PARSED-USED'):
     """`name:index|default` is documented syntax: what ParseFieldName() splits off the token has to reach the filter that is built"""
     res.rule(rule, 'in the expression parser every local that LexerToken::ParseFieldName() fills in (field name, value index, default value) flows into an argument of the CreateSubexpression() call '
@@ -461,6 +514,7 @@ def run(res, tier):
         raise AnalysisBroken('INDEX-USED: only %d field reads found in the value filters' % n_iu)
     default_substitute_rule(res, fx)
     parsed_name_used_rule(res, fx)
+    paired_length_rule(res, fx)
     res.explanation = ('Static decision of the archiving structure of the query filters: the archive operations of every SaveToArchive/SetFromArchive pair are extracted from the resolved AST (field-name literal, '
                        'accessor kind, default argument, base-class chaining) and compared; the data members read under Matches (through same-class helpers) must be read by the save side and written by the load '
                        'side in the class chain; factory, TypeCode() and enum are compared as tables; no Matches removes const; factory results are null-tested. Truth tables and the expression grammar are not decided.')
